@@ -236,7 +236,24 @@ prop('C09', level='other', design_ref='DESIGN.md section 6 (C09)',
      not_decided=['interference at the awaits of _refresh_hashes/_process_mempool/_fetch_and_accept not generated deductively',
                   'worker-thread preemption inside DB.lookup_utxos'], assumptions=[])
 
-for _pid in ['C07', 'C11']:
+prop('C11', level='other', design_ref='DESIGN.md section 6 (C11)',
+     technique='deductive verification of the proof mathematics (C12 Merkle core) and of the session-level range/position checks '
+               '(VCs from real source, z3) + bounded native stand-ins for the cache paths and for requests racing a reorganisation',
+     text='Branch/root/fold mathematics proved (C12 units); _merkle_proof refuses requests outside the chain; by-position/by-hash '
+          'lookups refuse positions outside the block.  Cache paths and the reorg race are bounded; the race fails (KF-C11-1).',
+     note='Trusted: header merkle root = root of the block tx hashes (A-VALID); _merkle_branch contract assumed (its cache path is the '
+          'C12 bounded stand-in). Cooperative interleavings only.',
+     explanation='Components deductive; cache + race bounded (labelled); KF-C11-1 listed.',
+     bounded=[{'obligation': 'merkle.MerkleCache.bounded', 'driver': 'merkle.py',
+               'what': 'level / branch_and_root_from_level / MerkleCache agree with the definition',
+               'bound': 'list lengths 1..40 x every index x every depth_higher x both formats; 1320 cache operation sequences'},
+              {'obligation': 'merkle.MerkleCache.race', 'driver': 'merkle_race.py', 'request': {'rounds': 10}, 'expect_kf': 'KF-C11-1',
+               'what': 'header-proof request in flight while the chain is reorganised and the cache truncated: after settling every '
+                       'proof must fold to the root of the current chain', 'bound': '10 generated race scenarios (probe of the known finding)'}],
+     not_decided=['MerkleCache functions under interference not under deductive contract', 'tsc_merkle_proof_for_tx_hash'],
+     assumptions=[])
+
+for _pid in ['C07']:
     na(_pid, 'contracts for this property are not yet built in this round (planned: DESIGN.md section 6); nothing is claimed')
 na('C06', 'quantifies over cancellation instants of an asyncio task while worker-thread jobs keep running: not '
           'expressible as pre/postconditions of functions in a sequential or cooperative model (DESIGN.md section 6, C06)')
